@@ -1761,7 +1761,7 @@ func init() {
 	register(&property{
 		Meta: propertyMeta{
 			ID:          "C18",
-			Explanation: "(C18-TABLE) decision-table extraction: every CFG path of binding.Auto is reduced to its decisions (comparisons of r.Method with constants, Contains tests of the Content-Type header against constants) and its outcome (parse calls and the binder applied to which source and destination); the table must be: method not in exactly {POST, PUT, PATCH} -> Query.BindValues(r.URL.Query()); else '/x-www-form-urlencoded' -> ParseForm + Form.BindValues(r.PostForm); '/form-data' -> ParseMultipartForm(DefaultMaxMemory) + Form.BindValues(r.PostForm); '/json' -> JSON.Bind; '/xml' -> XML.Bind; otherwise an error — tests in that order, no later test after a success. (C18-SRC) Auto reads only r.Method, r.Header, r.URL, r.PostForm. (C18-VALID) every binder (all implementers of Binder, BindValues/BindBytes and the decode helpers) returns either a known non-nil error or the result of Validate on the same destination; BinderFunc.Bind is the listed exception. (C18-ERR) no error result is dropped in pkg/binding and context_binding.go; nothing in pkg/binding panics or has an undischarged index/assertion obligation outside Must*. An error result that a path found non-nil is what that path returns (or wraps); DecodeUrlValues hands its values parameter to the decoder unmodified.",
+			Explanation: "(C18-TABLE) decision-table extraction: every CFG path of binding.Auto is reduced to its decisions (comparisons of r.Method with constants, Contains tests of the Content-Type header against constants) and its outcome (parse calls and the binder applied to which source and destination); the table must be: method not in exactly {POST, PUT, PATCH} -> Query.BindValues(r.URL.Query()); else '/x-www-form-urlencoded' -> ParseForm + Form.BindValues(r.PostForm); '/form-data' -> ParseMultipartForm(DefaultMaxMemory) + Form.BindValues(r.PostForm); '/json' -> JSON.Bind; '/xml' -> XML.Bind; otherwise an error — tests in that order, no later test after a success. (C18-SRC) Auto reads only r.Method, r.Header, r.URL, r.PostForm. (C18-VALID) every binder (all implementers of Binder, BindValues/BindBytes and the decode helpers) returns either a known non-nil error or the result of Validate on the same destination; BinderFunc.Bind is the listed exception. (C18-ERR) no error result is dropped in pkg/binding and context_binding.go; nothing in pkg/binding panics or has an undischarged index/assertion obligation outside Must*. An error result that a path found non-nil is what that path returns (or wraps); DecodeUrlValues hands its values parameter to the decoder unmodified. In every DataValidator implementation of pkg/binding a return is reached only after github.com/gookit/validate's Validate() on a validation built from the argument was taken as true, or returns a value computed by that library from the argument.",
 			NotDecided:  []string{"encode -> bind equality for any struct (codec round trip)", "behaviour of formam, encoding/json, encoding/xml, gookit/validate on malformed input (trusted not to panic)"},
 			Assumptions: []string{"third-party decoders return errors instead of panicking"},
 		},
